@@ -567,6 +567,25 @@ def r14_counter(ctx):
         shape = True                                    # next(itertools.count()) idiom
         a0 = b[0].value.args[0] if b[0].value.args else None
         counter_attr = a0.attr if isinstance(a0, ast.Attribute) else None
+    # one counter for all events: a classmethod writing `cls.<counter>` must be called on SimEvent itself -- through an instance
+    # (or cls / type(self)) the augmented assignment creates a separate counter on every subclass of SimEvent
+    from ..core import decorators
+    recv = unparse(assigns[0].value.func.value)
+    tgt_base = unparse(b[0].target.value) if b and isinstance(b[0], ast.AugAssign) and isinstance(b[0].target, ast.Attribute) else None
+    if tgt_base is None and len(b) == 1 and isinstance(b[0], ast.Return) and isinstance(b[0].value, ast.Call) and b[0].value.args and isinstance(b[0].value.args[0], ast.Attribute):
+        tgt_base = unparse(b[0].value.args[0].value)
+    is_cm = 'classmethod' in decorators(counter_fn)
+    shared = True
+    if tgt_base == 'cls' and is_cm and recv != 'SimEvent':
+        shared = False
+    if tgt_base in ('self', 'type(self)', 'self.__class__'):
+        shared = False
+    ctx.ob('R1.4', 'SimEvent.counter:one-counter', shared, sample=f'{counter_fn.name} writes {tgt_base}.<counter>, called as {recv}.{counter_fn.name}(): one counter for all event classes: {shared}')
+    if not shared:
+        ctx.finding('R1.4', 'SimEvent.counter:per-subclass', ci, assigns[0],
+                    f'the id counter is incremented through `{tgt_base}` with `{recv}.{counter_fn.name}()`: for an instance of a SimEvent subclass the augmented assignment '
+                    'creates a separate counter on that subclass, so ids repeat across event classes and equal-time equal-priority events are no longer ordered by creation '
+                    '(two distinct events can even compare equal)', where='SimEvent.__init__')
     ctx.ob('R1.4', 'SimEvent.counter:shape', shape, sample=f'{counter_fn.name}: {[short(s) for s in b]}')
     if not shape:
         ctx.finding('R1.4', 'SimEvent.counter:shape', ci, counter_fn,
